@@ -146,6 +146,13 @@ class MarkovChainMonteCarloRewiring(MarkovChainMonteCarlo):
             lst: list = hashmap_e1s[topology]
             for e1 in lst:
                 v1: int = self.get_other_vertex(v0, e1)
+                if u0 == v1 or v0 == u1:
+                    # the partner motif contains the focal vertex: the
+                    # proposal would be a self-loop
+                    self._logger.debug(
+                        "MarkovChainMonteCarlo - target edge is a self-loop"
+                    )
+                    return False
                 if G.has_edge(u0, v1) or G.has_edge(v0, u1):
                     self._logger.debug(
                         "MarkovChainMonteCarlo - target edges already in network"
